@@ -1465,7 +1465,7 @@ def lame_parameters(
                 + 9 * first_parameter**2
                 + 2 * youngs_modulus * first_parameter
             )
-            second_parameter = youngs_modulus - 3 * first_parameter + r / 4
+            second_parameter = (youngs_modulus - 3 * first_parameter + r) / 4
     if first_parameter is None or second_parameter is None:
         raise NotImplementedError(
             "lame_parameters() deriving Lame parameters from: "
